@@ -15,9 +15,15 @@ sed -i "s|/repo/|$M/repo/|g" $M/verif/harness/vcheck/Cargo.toml $M/verif/harness
 sed -i "s|target-dir = \"/verif/.target\"|target-dir = \"$M/verif/.target\"|" $M/verif/harness/.cargo/config.toml
 cd $M/verif && ./check --build || { echo "build failed"; exit 2; }
 out=/verif/seeded/MATRIX.tsv
-printf "patch\tchecks\tresult\n" > $out
+# ONLY=<regex>: run only the patches whose path matches and replace their lines in the table
+if [ -n "$ONLY" ] && [ -f $out ]; then
+  grep -Ev "$ONLY" $out > $out.tmp; mv $out.tmp $out
+else
+  printf "patch\tchecks\tresult\n" > $out
+fi
 run() { # patch, checks...
   p=$1; shift
+  if [ -n "$ONLY" ] && ! echo "$p" | grep -Eq "$ONLY"; then return; fi
   git -C $M/repo checkout -q -- . ; 
   if ! git -C $M/repo apply "$p" 2>/dev/null; then printf "%s\t-\tDOES-NOT-APPLY\n" "$p" >> $out; return; fi
   for c in "$@"; do
